@@ -150,6 +150,8 @@ def model_http(seq: List[str], version: str, te_trailers: bool) -> List[bool]:
             elif h2 and state == "TRAILERS":
                 # without "te: trailers" the message is dropped unread, which is neither demanded nor forbidden
                 ok = False if te_trailers else None
+                if not te_trailers:
+                    state = "UNJUDGED"  # dropped unread, and the response is then complete
             else:
                 ok = False
         elif sym == "trailers":
